@@ -28,7 +28,7 @@ RULE = ('each run = 20-40 validations of time locks on 1-3 simulated validators 
         'class, observed verdict)')
 REQUIRED_PROBES = ['t==c', 't==c-1', 't-now==thr', 't-now==thr-1', 'thr<=0',
                    'constraint_top_bit', 'encoding_len_9', 'step_between_reads',
-                   'mixed_slack_reads', 'fractional_now', 'empty_window', 'default_timestamp', 'session_cache_reused'] + \
+                   'mixed_slack_reads', 'fractional_now', 'empty_window', 'default_timestamp', 'session_cache_reused', 'non_int_timestamp'] + \
     ['nested_' + n for n in ('if', 'else', 'call', 'eval', 'try', 'except', 'loop', 'scripthash')]
 
 KINDS = ['cts', 'ctsv', 'ce', 'cev', 'after', 'afterv', 'before', 'beforev',
@@ -94,6 +94,10 @@ def gen_step(rng: Rng, cell, vname, now_s, at_us, big):
             # handed to this one (with the new timestamp) -- nothing but the explicit
             # timestamp may carry over from an earlier instant
             'reuse_cache': rng.chance(1, 6)}
+    if rng.chance(1, 25) and kind not in ('ce', 'cev'):
+        # the embedder copies a crafted transaction field into the cache: a value that
+        # is not an int must not unlock anything the documented formula would not
+        step['weird_t'] = rng.choice(sorted(WEIRD))
     if kind in ('ce', 'cev'):
         # constraint relative to clock and epoch threshold instead
         d = ds if ds != 'far' else rng.choice([-far, far])
@@ -122,7 +126,7 @@ def gen_step(rng: Rng, cell, vname, now_s, at_us, big):
         else:
             step['c2'] = c                      # end
             step['c'] = max(c - width, 0)
-    if rng.chance(1, 8) and kind not in ('ce', 'cev'):
+    if rng.chance(1, 8) and kind not in ('ce', 'cev') and 'weird_t' not in step:
         # the embedder does not supply a timestamp: the execution timestamp is
         # run_script's default, i.e. the validator clock at that instant; the
         # constraint is placed relative to it
@@ -266,6 +270,31 @@ def wrap(lock, nest, verify_form):
 
 
 SESSION = {}        # validator -> cache returned by its latest raw run (per run of the sim)
+# execution timestamps that are not ints (tag -> value made from the step's integer t)
+WEIRD = {'nan': lambda t: float('nan'), 'inf': lambda t: float('inf'),
+         'ninf': lambda t: float('-inf'), 'half': lambda t: float(t) + 0.5,
+         'float': lambda t: float(t), 'bool': lambda t: True}
+
+
+def weird_model(step, reads):
+    """The documented formulas evaluated on the non-int value itself (comparisons with
+    NaN are false).  Where a formula is false the value must be rejected; where it is
+    true either answer is fine (the unchanged code refuses every non-int)."""
+    tv = WEIRD[step['weird_t']](step['t'])
+    k = BASE[step['kind']]
+    thr = step['thr']
+    if thr <= 0:
+        slack = True
+    else:
+        vals = [tv - int(r) < thr for r in reads] + [tv - r < thr for r in reads]
+        slack = bool(vals) and all(vals)
+    if k in ('cts', 'after'):
+        ok = tv >= step['c'] and slack
+    elif k == 'before':
+        ok = tv < step['c']
+    else:
+        ok = step['c'] <= tv < step['c2'] and slack
+    return EITHER if ok else REJECT
 
 
 def observe(step, lock, run):
@@ -273,8 +302,10 @@ def observe(step, lock, run):
     k = step['kind']
     t = step['t']
     cache = {} if t is None else {'timestamp': t}
+    if step.get('weird_t'):
+        cache = {'timestamp': WEIRD[step['weird_t']](t)}
     prev = SESSION.get(step['validator'])
-    if step.get('reuse_cache') and prev is not None and t is not None:
+    if step.get('reuse_cache') and prev is not None and t is not None and not step.get('weird_t'):
         run.probe('session_cache_reused')
         cache = {**prev, 'timestamp': t}
         cache.pop('returned', None)
@@ -435,6 +466,22 @@ def execute(plan, run):
             obs = observe(step, lock, run)
         finally:
             reads = CLOCK.end_call()
+        if step.get('weird_t'):
+            run.probe('non_int_timestamp')
+            if obs.startswith('BAD:raised_'):
+                obs = REJECT        # refusing the value outright is a rejection
+            mdl = weird_model(step, reads)
+            run.sched.append([step['kind'], step.get('nest', 'top'), step['validator'],
+                              len(reads), 'weird_' + step['weird_t']])
+            run.ev('val', i, step['kind'], step['t'], step['weird_t'], reads, obs, mdl)
+            run.judge('window', obs, mdl,
+                      lambda o, m, s=step: 'C16/%s/non_int_timestamp_%s/%s' % (
+                          BASE[s['kind']], s['weird_t'],
+                          'accepted_against_the_formula' if o == ACCEPT else o[:40]),
+                      step=i, detail={'reads': reads, 't': step['t'], 'weird_t': step['weird_t'],
+                                      'kind': step['kind'], 'c': step.get('c'),
+                                      'c2': step.get('c2'), 'thr': step['thr']})
+            continue
         if step['t'] is None:
             # default execution timestamp: whatever the clock showed first in this call
             run.probe('default_timestamp')
